@@ -33,17 +33,19 @@ theorem render_no_expunge : ∀ (us : List Upd) (p : List (Nat × Nat)),
 /-- what `pollConn` returns, spelled out -/
 theorem pollConn_some {st st' : Views.St} {c : Nat} {allow : Bool} {evs : List Ev}
     (h : pollConn st c allow = some (st', evs)) :
-    (evs = [] ∧ st' = st) ∨
+    (evs = [] ∧ st' = st ∧ ∀ cn, getConn st c = some cn → cn.sel = none) ∨
     ∃ cn m b t out, getConn st c = some cn ∧ cn.sel = some m ∧ getMb st m = some b ∧
       step b.tr (.poll c allow) = some (t, out) ∧ evs = (render out cn.pay).1 ∧
       st' = setConn (setMb st m { b with tr := t }) c { cn with pay := (render out cn.pay).2 } := by
   unfold pollConn at h
   cases hc : getConn st c with
-  | none => simp only [hc, Option.some.injEq, Prod.mk.injEq] at h; exact Or.inl ⟨h.2.symm, h.1.symm⟩
+  | none => simp only [hc, Option.some.injEq, Prod.mk.injEq] at h; exact Or.inl ⟨h.2.symm, h.1.symm, fun _ hh => by cases hh⟩
   | some cn =>
     simp only [hc] at h
     cases hs : cn.sel with
-    | none => simp only [hs, Option.some.injEq, Prod.mk.injEq] at h; exact Or.inl ⟨h.2.symm, h.1.symm⟩
+    | none =>
+      simp only [hs, Option.some.injEq, Prod.mk.injEq] at h
+      exact Or.inl ⟨h.2.symm, h.1.symm, fun cn' hh => by cases hh; exact hs⟩
     | some m =>
       simp only [hs] at h
       cases hb : getMb st m with
@@ -56,5 +58,19 @@ theorem pollConn_some {st st' : Views.St} {c : Nat} {allow : Bool} {evs : List E
           obtain ⟨t, out⟩ := r
           simp only [ht, Option.some.injEq, Prod.mk.injEq] at h
           exact Or.inr ⟨cn, m, b, t, out, rfl, hs, hb, ht, h.2.symm, by rw [hs]; exact h.1.symm⟩
+
+/-- the specification's fold over events, split at an append -/
+theorem applyEvs_append {q sr : Bool} : ∀ {a : List Ev} {b : List Ev} {v v1 v2 : View},
+    applyEvs q sr v a = .ok v1 → applyEvs q sr v1 b = .ok v2 → applyEvs q sr v (a ++ b) = .ok v2
+  | [], b, v, v1, v2, h1, h2 => by
+    simp only [applyEvs, Except.ok.injEq] at h1
+    subst h1; exact h2
+  | e :: a, b, v, v1, v2, h1, h2 => by
+    simp only [applyEvs, List.cons_append] at h1 ⊢
+    cases he : applyEv q sr v e with
+    | error x => simp [he] at h1
+    | ok v' =>
+      simp only [he] at h1 ⊢
+      exact applyEvs_append h1 h2
 
 end GoImap.ViewsLemmas
